@@ -106,21 +106,36 @@ def handle (op : String) (j : Json) : Except String Json := do
       return reply (Json.mkObj [("err", str "other:AttributeError")]) (some spec)
     let exts := exts.filterMap id
     let inv := exts.all (·.invB)
-    let model : Json :=
-      match prog.evalExt exts with
-      | none => errIdx
-      | some e =>
+    let kline := fmt == "fastq" || fmt == "fasta2"
+    let fidx : List Nat := if fmt == "fastq" then [0, 1, 3] else [0, 1]
+    let joinK := fun (n : Nat) (cols : List (List Bytes)) => match fmt with
+      | "fastq" => joinKLine 64 n (cols.take 2 ++ [List.replicate n [43]] ++ cols.drop 2)
+      | _ => joinKLine 62 n cols
+    let lazyOut := fun (e : Ext) =>
         if repl.isEmpty then Json.mkObj [("out", bstr (toBytes hdr ++ e.bytes)), ("inv", Json.bool inv)]
         else
           let cols := (List.range nF).map (fun jj =>
             match repl.find? (·.1 == jj) with
             | some (_, col) => col
             | none => column fmt e jj)
-          let body := match fmt with
-            | "fastq" => joinKLine 64 e.len (cols.take 2 ++ [List.replicate e.len [43]] ++ cols.drop 2)
-            | "fasta2" => joinKLine 62 e.len cols
-            | _ => joinDelimited 9 e.len cols
+          let body := if kline then joinK e.len cols else joinDelimited 9 e.len cols
           Json.mkObj [("out", bstr (toBytes hdr ++ body)), ("inv", Json.bool inv)]
+    let model : Json :=
+      if kline then
+        -- buffers without `concatenate`: np.concatenate materialises the operands (eager table of field texts)
+        match prog.evalTab false fidx exts with
+        | none => errIdx
+        | some (.lz e) => lazyOut e
+        | some (.eg rows) =>
+          let cols := (List.range nF).map (fun jj =>
+            match repl.find? (·.1 == jj) with
+            | some (_, col) => col
+            | none => rows.map (fun r => r.getD jj []))
+          Json.mkObj [("out", bstr (toBytes hdr ++ joinK rows.length cols)), ("inv", Json.bool inv)]
+      else
+        match prog.evalExt exts with
+        | none => errIdx
+        | some e => lazyOut e
     pure (reply model (some spec))
   | _ => throw s!"C04: unknown op {op}"
 
